@@ -82,3 +82,14 @@ Fixpoint filter_map {A B} (f : A -> option B) (l : list A) : list B :=
   | [] => []
   | x :: r => match f x with Some y => y :: filter_map f r | None => filter_map f r end
   end.
+
+Lemma nth_error_rev {A} (l : list A) n :
+  (n < List.length l)%nat -> nth_error (rev l) n = nth_error l (List.length l - S n).
+Proof.
+  induction l as [|a l IH]; intros Hn; cbn [List.length] in *; [lia|].
+  cbn [rev]. destruct (Nat.eq_dec n (List.length l)) as [->|Hne].
+  - rewrite nth_error_app2 by (rewrite rev_length; lia).
+    rewrite rev_length, !Nat.sub_diag. reflexivity.
+  - rewrite nth_error_app1 by (rewrite rev_length; lia).
+    rewrite IH by lia. replace (S (List.length l) - S n)%nat with (S (List.length l - S n)) by lia. reflexivity.
+Qed.
